@@ -78,6 +78,16 @@ func (ex *Exec) callValue(st *State, fc *FnCtx, c *ssa.CallCommon, fnv Val, args
 		}
 		if fct := ex.fieldContractFor(c.Value); fct != nil {
 			ex.pendingFn = &callee
+			if ld, ok := c.Value.(*ssa.UnOp); ok {
+				if fa, ok := ld.X.(*ssa.FieldAddr); ok {
+					if pv, ok := ex.val(st, fa.X).(*Ptr); ok && pv.Cell != nil {
+						ex.pendingSelf = &tv{P: pv, Ty: fa.X.Type()}
+					} else {
+						sv := ex.asTerm(st, ex.val(st, fa.X), fa.X.Type())
+						ex.pendingSelf = &tv{T: sv, Ty: fa.X.Type()}
+					}
+				}
+			}
 			ex.applyContract(st, fc, fct, nil, c.Signature(), nil, args, in, k)
 			return
 		}
@@ -354,6 +364,10 @@ func (ex *Exec) applyContract(st *State, fc *FnCtx, ct *Contract, fn *ssa.Functi
 		names["fn"] = tv{T: *ex.pendingFn}
 		ex.pendingFn = nil
 	}
+	if ex.pendingSelf != nil {
+		names["self"] = *ex.pendingSelf
+		ex.pendingSelf = nil
+	}
 	var pkg *types.Package
 	if fn != nil {
 		pkg = fnPkg(fn)
@@ -364,6 +378,20 @@ func (ex *Exec) applyContract(st *State, fc *FnCtx, ct *Contract, fn *ssa.Functi
 	callProps := []string(nil)
 	if ex.ct != nil {
 		callProps = ex.ct.Props
+	}
+	// ghost lets of the callee: entry-state abbreviations
+	for _, cl := range ct.Lets {
+		parts := strings.SplitN(cl.Text, "=", 2)
+		if len(parts) != 2 {
+			continue
+		}
+		v, err := env.evalTerm(strings.TrimSpace(parts[1]))
+		if err != nil {
+			ex.specError(cl, err)
+			continue
+		}
+		v = env.needTerm(v)
+		names[strings.TrimSpace(parts[0])] = tv{T: ex.define(st, "let", v.T), Ty: v.Ty}
 	}
 	for i, cl := range ct.Requires {
 		t, err := env.evalBool(cl.Text)
